@@ -126,7 +126,7 @@ static void print_data(const char* tag, const float* d, size_t n) {
 struct Case {
     std::string kind, id;
     std::vector<std::string> head;
-    std::vector<float> off, data, extra;
+    std::vector<float> off, off0, data, extra;
     std::vector<std::pair<float, float>> parts;
     std::vector<std::string> words;
     std::vector<std::string> argv, cfg;
@@ -140,9 +140,17 @@ static void run_kick(const Case& c) {
     PhaseSpace::resetSize(n, nb);
     auto in = mkps(n, nb, c.data.data());
     auto out = mkps(n, nb, nullptr);
-    ProbeKick km(in, out, static_cast<SourceMap::InterpolationType>(it), false,
+    // optional 8th token: the interpolation-clamp switch (ignored by the CPU path of the unchanged code)
+    const bool clamp = c.head.size() > 7 && c.head[7] == "1";
+    ProbeKick km(in, out, static_cast<SourceMap::InterpolationType>(it), clamp,
                  axis == "x" ? KickMap::Axis::x : KickMap::Axis::y, nullptr);
     if (lb >= 0) km.setLastBunch(static_cast<uint32_t>(lb));
+    if (!c.off0.empty()) {
+        // a map with a past: an earlier displacement field was installed and applied before the one of this case
+        std::vector<meshaxis_t> o0(c.off0);
+        km.swapOffset(o0);
+        km.apply();
+    }
     std::vector<meshaxis_t> off(c.off);
     km.swapOffset(off);
     std::cout << "case " << c.id << '\n';
@@ -191,6 +199,7 @@ int main(int argc, char** argv) {
         auto t = toks(line);
         if (t.empty() || t[0][0] == '#') continue;
         if (t[0] == "off") cur.off = floats(t, 1);
+        else if (t[0] == "off0") cur.off0 = floats(t, 1);
         else if (t[0] == "data") cur.data = floats(t, 1);
         else if (t[0] == "extra") cur.extra = floats(t, 1);
         else if (t[0] == "parts") { auto v = floats(t, 1); for (size_t i = 0; i + 1 < v.size(); i += 2) cur.parts.push_back({v[i], v[i + 1]}); }
